@@ -729,6 +729,8 @@ def render_rust(prog, plan, reject=None):
         return bodies.get(id(m))
     prelude = PRELUDE % max(1, len(plan))
     src = ir.render_program(prog, bodies=body_fn, opaque_body=opaque_body, extra_items=extra_items(prog), prelude=prelude)
+    if prog.get("holder"):
+        src += "\n" + holder_rust(prog["holder"])
     return src + "\n" + layout_fn(prog, plan)
 
 
@@ -841,6 +843,10 @@ def render_c(prog, plan, protos, header_names, history=None, fixed_writers=True)
     if history is not None:
         for ty, oid in history["final"]:
             src += "  %s((%s*)dv_pool[%d]);\n" % (dtor_of[ty], ty, oid - 1000)
+    if prog.get("holder"):
+        htop, hbody = holder_c(prog["holder"])
+        top.append(htop)
+        src += hbody
     src += "  dv_log_dump();\n  dv_drops_dump();\n  return 0;\n}\n"
     return head + "\n".join(top) + "\n" + src
 
@@ -916,6 +922,80 @@ def expected_callback_lines(prog, plan, history=None, reject=None):
             drops.append("cbdrop %s %d" % (uid, len(inv)))
         cside.append(sorted(drops))     # destruction order among one call's callbacks is not specified
     return cside, rside
+
+
+# ---- a callback that outlives the call that received it -----------------------------------------------------
+HOLDER_RET = {"i32": ("i32", "int32_t"), "optstd": ("Option<i32>", "OptionI32"), "optdip": ("DiplomatOption<i32>", "OptionI32"), "unit": ("()", "void")}
+
+
+def plan_holder(draw):
+    """a bridged opaque that stores `impl Fn(i32) -> R + 'static`, is fired a few times and then destroyed"""
+    kind = draw(st.sampled_from(["i32", "optstd", "optstd", "optdip", "unit"]))
+    fires = []
+    for _ in range(draw(st.integers(1, 4))):
+        x = draw(st.integers(-2 ** 31, 2 ** 31 - 1))
+        ans = None if kind == "unit" else draw(st.one_of(st.none(), st.integers(-2 ** 31 + 1, 2 ** 31 - 1))) if kind.startswith("opt") else draw(st.integers(-2 ** 31 + 1, 2 ** 31 - 1))
+        fires.append({"x": x, "answer": ans})
+    return {"ret": kind, "fires": fires}
+
+
+def holder_rust(h):
+    rty = HOLDER_RET[h["ret"]][0]
+    conv = {"i32": "r", "optstd": "match r { Some(v) => v, None => i32::MIN }", "optdip": "match r.into_option() { Some(v) => v, None => i32::MIN }", "unit": "{ let _ = r; 0 }"}[h["ret"]]
+    return """#[diplomat::bridge]
+pub mod dvholdermod {
+    #[diplomat::opaque]
+    pub struct DvHolder(pub u32, pub Box<dyn Fn(i32) -> %s>);
+    impl DvHolder {
+        pub fn dv_hold(id: u32, f: impl Fn(i32) -> %s + 'static) -> Box<DvHolder> { Box::new(DvHolder(id, Box::new(f))) }
+        pub fn dv_fire(&self, x: i32) -> i32 { let r = (self.1)(x); %s }
+    }
+}
+""" % (rty, rty, conv)
+
+
+def holder_c(h):
+    """(file-scope functions, statements for main)"""
+    cty = HOLDER_RET[h["ret"]][1]
+    top = "static %s dv_hcb(const void* data, int32_t x) {\n  int j = (*(int*)data)++;\n  printf(\"hcbin %%d x=%%d\\n\", j, (int)x);\n" % cty
+    if h["ret"] != "unit":
+        top += "  switch (j) {\n"
+        for j, f in enumerate(h["fires"]):
+            if h["ret"] == "i32":
+                top += "    case %d: return (int32_t)%dll;\n" % (j, f["answer"])
+            elif f["answer"] is None:
+                top += "    case %d: return (OptionI32){ .is_ok = false };\n" % j
+            else:
+                top += "    case %d: return (OptionI32){ .ok = (int32_t)%dll, .is_ok = true };\n" % (j, f["answer"])
+        top += "  }\n  %s dv_z; memset(&dv_z, 0, sizeof(dv_z)); return dv_z;\n" % cty
+    top += "}\nstatic void dv_hcbd(const void* data) { printf(\"hcbdrop %d\\n\", *(const int*)data); free((void*)data); }\n"
+    body = "  {\n    int* dv_hd = (int*)malloc(sizeof(int)); *dv_hd = 0;\n"
+    body += "    DvHolder* dv_h = DvHolder_dv_hold(4242u, (DiplomatCallback_DvHolder_dv_hold_f){ .data = dv_hd, .run_callback = dv_hcb, .destructor = dv_hcbd });\n"
+    body += '    printf("hold-created\\n");\n'
+    for f in h["fires"]:
+        body += '    printf("hfire %%d\\n", (int)DvHolder_dv_fire(dv_h, (int32_t)%dll));\n' % f["x"]
+    body += '    printf("hold-destroying\\n");\n    DvHolder_destroy(dv_h);\n    printf("hold-destroyed\\n");\n  }\n'
+    return top, body
+
+
+def holder_expected(h):
+    out = ["hold-created"]
+    for j, f in enumerate(h["fires"]):
+        out.append("hcbin %d x=%d" % (j, f["x"]))
+        r = 0 if h["ret"] == "unit" else (-2 ** 31 if f["answer"] is None else f["answer"])
+        out.append("hfire %d" % r)
+    out += ["hold-destroying", "hcbdrop %d" % len(h["fires"]), "hold-destroyed"]
+    return out
+
+
+def holder_fails(h, lines):
+    got = [l for l in lines if l.startswith(("hold-", "hcbin ", "hfire ", "hcbdrop "))]
+    want = holder_expected(h)
+    if got != want:
+        i = next((k for k, (a, b) in enumerate(zip(got + ["<end>"], want + ["<end>"])) if a != b), 0)
+        return [("stored-callback", "a callback kept by an opaque beyond the call: observed `%s` where `%s` was expected (the callback's data must stay alive until the holder is destroyed, and be released exactly once then); full trace %s" % (
+            (got + ["<end>"])[i], (want + ["<end>"])[i], got[:12]))]
+    return []
 
 
 def callback_fails(prog, plan, lines, **kw):
